@@ -524,8 +524,12 @@ def run_asan(case):
 
     d = build("asan")
     libasan = subprocess.run(["gcc", "-print-file-name=libasan.so"], stdout=subprocess.PIPE, text=True).stdout.strip()
+    # libstdc++ is preloaded with the sanitizer runtime: scipy's hyp1f1 (used to tabulate the 1F1 spline of the
+    # fractional-Laplacian code) throws and catches a C++ exception internally, and ASan's __cxa_throw interceptor aborts
+    # ("CHECK failed ... real___cxa_throw") when the C++ runtime was not loaded before it
+    libstdcxx = subprocess.run(["gcc", "-print-file-name=libstdc++.so"], stdout=subprocess.PIPE, text=True).stdout.strip()
     env = det_env()
-    env.update({"LD_PRELOAD": libasan, "ASAN_OPTIONS": "detect_leaks=0:verify_asan_link_order=0:abort_on_error=0:exitcode=97:allocator_may_return_null=1",
+    env.update({"LD_PRELOAD": libasan + " " + libstdcxx, "ASAN_OPTIONS": "detect_leaks=0:verify_asan_link_order=0:abort_on_error=0:exitcode=97:allocator_may_return_null=1",
                 "OMP_NUM_THREADS": "1", "VERIF_REEXEC": "1"})
     fails = []
     start = 0
@@ -551,6 +555,10 @@ def run_asan(case):
             ent = json.loads(what) if what.startswith("{") else {"entry": what}
             fails.append({"key": "asan;%s;entry=%s;op=%s" % (kind, ent.get("entry"), ent.get("op", ent.get("kind", ent.get("fam", "-")))),
                           "msg": "AddressSanitizer %s while running %s (team %d): %s" % (kind, what, case["team"], where[0] if where else summ[0])})
+        elif "AddressSanitizer: CHECK failed" in r.stderr:
+            # the sanitizer runtime itself gave up (an internal assertion of the tool, not a report about the library)
+            fails.append({"key": "harness-sanitizer-internal-error", "msg": "AddressSanitizer aborted on an internal check while running %s: %s" % (
+                what[:120], [l for l in r.stderr.splitlines() if "CHECK failed" in l][0][:200])})
         else:
             fails.append({"key": "asan-run-died;entry=%s" % what[:80], "msg": "instrumented run died with rc=%s without an ASan report: %s" % (r.returncode, r.stderr[-300:])})
         ran += len(marks)
